@@ -30,6 +30,39 @@ def extra(report, env):
         return Fraction(x)
     nums = [0, 1, -1, 2, -2, 7, -7, 10, 15, -15, 0.5, -0.5, 1.5, -1.5, 2.5, -2.5, 0.125, -0.375, 3.7, -3.7, 123.456, -123.456, 1e-3, 99.995, 1234567.891,
             0.25, 17.0, -17.0, 1000000, 5.5, -5.5, 2.675]
+    def ceil_floor(x, s):
+        nonlocal cases
+        for name in ('CEILING', 'FLOOR'):
+            cases += 1
+            r = call(name, x, s)
+            fx, fs = F(x), abs(F(s))
+            if name == 'FLOOR' and x > 0 and s < 0:
+                ok = r['error'] == '#NUM!'
+            elif r['error'] is not None:
+                ok = False
+            else:
+                v = F(r['result'])
+                mult = (v / fs).denominator == 1
+                if name == 'CEILING':
+                    side = (v >= fx and v - fx < fs) if (x >= 0 or s > 0) else (v <= fx and fx - v < fs)
+                else:
+                    side = (v <= fx and fx - v < fs) if (x >= 0 or s > 0) else (v >= fx and v - fx < fs)
+                ok = mult and side
+            if not ok and len(fails) < 5:
+                fails.append({'formula': '%s(%r,%r)' % (name, x, s), 'detail': 'got %r' % (r,)})
+    # numbers a hair (2^-34 significances, exactly representable) beside a multiple: the adjacent multiple on the documented side is the
+    # NEXT one, however close the number is to the one it has just passed
+    for s in (1, 2, 0.5, 0.25, -1, -2, -0.5, 4):
+        for k in (-1000, -7, -1, 0, 1, 3, 7, 1000):
+            for eps in (2.0 ** -34, -2.0 ** -34, 2.0 ** -20, -2.0 ** -20):
+                x = (k + eps) * abs(s)
+                ceil_floor(x, s)
+                for name in ('ROUNDUP', 'ROUNDDOWN', 'INT'):
+                    cases += 1
+                    r = call(name, x, 0) if name != 'INT' else call(name, x)
+                    want = math.floor(x) if name == 'INT' else ((math.ceil(abs(x)) if name == 'ROUNDUP' else math.floor(abs(x))) * (1 if x >= 0 else -1))
+                    if r['result'] != want and len(fails) < 5:
+                        fails.append({'formula': '%s(%r%s)' % (name, x, '' if name == 'INT' else ',0'), 'detail': 'expected %r got %r' % (want, r)})
     for x in nums:
         for d in range(-6, 7):
             unit = F(10) ** (-d)
@@ -51,24 +84,7 @@ def extra(report, env):
                 if not ok and len(fails) < 5:
                     fails.append({'formula': '%s(%r,%d)' % (name, x, d), 'detail': 'got %r' % (r,)})
         for s in (1, 2, 0.5, 0.25, 5, -1, -2, -0.5, 10, 3):
-            for name in ('CEILING', 'FLOOR'):
-                cases += 1
-                r = call(name, x, s)
-                fx, fs = F(x), abs(F(s))
-                if name == 'FLOOR' and x > 0 and s < 0:
-                    ok = r['error'] == '#NUM!'
-                elif r['error'] is not None:
-                    ok = False
-                else:
-                    v = F(r['result'])
-                    mult = (v / fs).denominator == 1
-                    if name == 'CEILING':
-                        side = (v >= fx and v - fx < fs) if (x >= 0 or s > 0) else (v <= fx and fx - v < fs)
-                    else:
-                        side = (v <= fx and fx - v < fs) if (x >= 0 or s > 0) else (v >= fx and v - fx < fs)
-                    ok = mult and side
-                if not ok and len(fails) < 5:
-                    fails.append({'formula': '%s(%r,%r)' % (name, x, s), 'detail': 'got %r' % (r,)})
+            ceil_floor(x, s)
         cases += 4
         r = call('INT', x)
         if r['result'] != math.floor(x) and len(fails) < 5:
@@ -174,7 +190,7 @@ def extra(report, env):
         r1, r2 = p.parse('IMREAL(COMPLEX(va,vb))'), p.parse('IMAGINARY(COMPLEX(va,vb))')
         if (r1['result'], r2['result']) != (re_, im) and len(fails) < 5:
             fails.append({'formula': 'IMREAL/IMAGINARY(COMPLEX(%d,%d))' % (re_, im), 'detail': 'got %r %r' % (r1, r2)})
-    bounded(report, 'C17.grid', '32 numbers x digits -6..6 x 3 rounding functions, x 10 significances x CEILING/FLOOR, INT/SIGN/EVEN/ODD, x 8 divisors '
+    bounded(report, 'C17.grid', '32 numbers x digits -6..6 x 3 rounding functions, x 10 significances x CEILING/FLOOR, numbers 2^-34 and 2^-20 significances beside a multiple (8 significances x 8 multiples; also ROUNDUP/ROUNDDOWN/INT), INT/SIGN/EVEN/ODD, x 8 divisors '
             'QUOTIENT/MOD (exact Fraction reference), FACT 0..24, seeded radix round trips over the 40-bit range x radix 2..36, out-of-range '
             'arguments, ROMAN/ARABIC exhaustively (3999 x 5 forms), COMPLEX', cases, fails)
 
